@@ -310,6 +310,8 @@ def call_bad(w, bad):
     if k == "truncate_index_range":
         return w.truncate_by_index(bad["start"], bad["stop"])
     if k == "slice_index_range":
+        if bad.get("step") is not None:
+            return w.slice_by_index(bad["start"], bad["stop"], bad["step"])
         return w.slice_by_index(bad["start"], bad["stop"])
     if k == "slice_value_absent":
         return w.slice_by_value(bad["start"], bad["stop"])
@@ -317,6 +319,9 @@ def call_bad(w, bad):
         return w.interpolate(n=bad["n"], method=bad["name"])
     if k == "interpolate_ends":
         nx = bad["new_x"] if bad.get("as_list") else np.array(bad["new_x"], dtype=float)
+        if bad.get("n") is not None:
+            # documented: n is "ignored if new_x specified" - the grid is what counts, and it is a bad one
+            return w.interpolate(n=bad["n"], new_x=nx, method=bad["method"])
         return w.interpolate(new_x=nx, method=bad["method"])
     if k == "interpolate_nothing":
         return w.interpolate(method=bad["method"])
@@ -642,6 +647,10 @@ def make_machine(ctx, with_rejects=False, max_ops=10):
                 bad = dict(kind=which, start=-data.draw(st.integers(1, 5)), stop=data.draw(st.sampled_from([None, L])))
             else:
                 bad = dict(kind=which, start=data.draw(st.integers(0, max(0, L - 1))), stop=L + data.draw(st.integers(1, 5)))
+            if which == "slice_index_range" and data.draw(st.booleans()):
+                # an out-of-range bound stays out of range whatever the stride
+                bad["step"] = data.draw(st.integers(1, 6))
+                ctx.count("slice-index:with-step")
             self._bad(bad)
 
         @rule(data=st.data())
@@ -691,7 +700,11 @@ def make_machine(ctx, with_rejects=False, max_ops=10):
                     nx[0] = nx[0] + data.draw(st.sampled_from([d, -d]))
                 if end in ("last", "both"):
                     nx[2] = nx[2] + data.draw(st.sampled_from([d, -d]))
-                self._bad(dict(kind=which, new_x=nx, method=data.draw(st.sampled_from(["linear", "constant", "cubic"])),
-                               as_list=data.draw(st.booleans())))
+                bad = dict(kind=which, new_x=nx, method=data.draw(st.sampled_from(["linear", "constant", "cubic"])),
+                           as_list=data.draw(st.booleans()))
+                if data.draw(st.integers(0, 2)) == 0:
+                    bad["n"] = data.draw(st.sampled_from([3, 2, 9, L]))
+                    ctx.count("interpolate-ends:with-n")
+                self._bad(bad)
 
     return RejectMachine
